@@ -17,7 +17,13 @@ func main() {
 	tier := flag.String("tier", "", "quick|thorough (default: $VERIF_TIER or quick)")
 	repo := flag.String("repo", "/repo", "repository root to analyse")
 	verif := flag.String("verif", "/verif", "verification directory (evidence/, replay/, known_findings.txt)")
+	dump := flag.String("dump", "", "developer aid: print the FoIR normal forms of the functions of a module directory (e.g. fc)")
+	dumpFn := flag.String("fn", "", "with -dump: only this function")
 	flag.Parse()
+	if *dump != "" {
+		rules.Dump(core.NewRepo(*repo), *dump, *dumpFn)
+		return
+	}
 	if *tier == "" {
 		*tier = os.Getenv("VERIF_TIER")
 	}
